@@ -1,5 +1,6 @@
 import errno
 import io
+import os
 import sys
 from abc import ABC, abstractmethod
 from enum import Enum
@@ -189,6 +190,34 @@ class ProxyRecordWriter(ProxyWriter):
         self.__init__(n_files, **kwargs)
 
 
+def fileformat_from_paths(*paths: str) -> Optional[str]:
+    """
+    Determine the output format ("fasta" or "fastq") from the extensions of the given
+    output paths (ignoring a compression suffix). Return None if the paths have no
+    recognized extension or do not agree.
+
+    The format needs to be decided from the path because the file objects the
+    record writers work on (compressed streams, in-memory buffers of the proxy
+    writers) do not necessarily expose the file name.
+    """
+    formats = set()
+    for path in paths:
+        name = os.fspath(path).lower()
+        for ext in (".gz", ".xz", ".bz2", ".zst"):
+            if name.endswith(ext):
+                name = name[: -len(ext)]
+                break
+        if name.endswith((".fasta", ".fa", ".fna", ".csfasta", ".csfa")):
+            formats.add("fasta")
+        elif name.endswith((".fastq", ".fq")) or name.endswith("_sequence.txt"):
+            formats.add("fastq")
+        else:
+            formats.add(None)
+    if len(formats) == 1:
+        return formats.pop()
+    return None
+
+
 class OutputFiles:
     def __init__(
         self,
@@ -244,6 +273,10 @@ class OutputFiles:
             paths = ("-",)
         for path in paths:
             assert path is not None
+        if "fileformat" not in kwargs:
+            fileformat = fileformat_from_paths(*paths)
+            if fileformat is not None:
+                kwargs["fileformat"] = fileformat
         binary_files = []
         for path in paths:
             binary_file = self._file_opener.xopen(path, "wb")
